@@ -157,6 +157,9 @@ func init() {
 			rn.Floor("index_sites", 100)
 			res.Merge(rn)
 			res.Merge(flagx.RunLenValue(def, core.Pkgs("./blas/gonum")))
+			ro := flagx.RunRetOffset(def, core.Pkgs("./blas/gonum"))
+			ro.Floor("functions_returning_a_parameter_plus_a_value", 1)
+			res.Merge(ro)
 			cs := loopidx.RunContinueSkip(def, core.Pkgs(blasPkgs...))
 			cs.Floor("loops_with_trailing_induction_updates", 150)
 			res.Merge(cs)
@@ -972,6 +975,8 @@ func dump(argv []string) {
 		res = flagx.RunSentinelIndex(def, core.Pkgs(argv[1:]...))
 	case "decodesquare":
 		res = decode.RunSquare(def, argv[1:]...)
+	case "retoffset":
+		res = flagx.RunRetOffset(def, core.Pkgs(argv[1:]...))
 	case "workquery":
 		res = flagx.RunWorkQuery(def, core.Pkgs(argv[1:]...))
 	case "betascale":
